@@ -421,3 +421,50 @@ class VerifControl(Message):
 '''
     r2 = Repo(repo.root, overlay={"compiler/util/ir_data.py": new})
     return any("Decimal" in f.construct for f in serialtypes(r2).findings)
+
+
+def enumconv(repo):
+    """R-ENUMCONV (C18): the back end must not be able to tell an IR read back from JSON from the one built in memory.
+    Enum-typed fields (`FunctionMapping`, `AddressableUnit`) are written as names or numbers; the deserialiser's converter
+    turns either into a *member of the enum class* on every path (`getattr(enum_cls, ...)`, `enum_cls(...)`,
+    `enum_cls[...]`).  The IR enums are int-based, so a raw number compares equal and survives `==` round-trip tests, but
+    any identity test, dictionary keyed by members with a different hash, or `.name` access behaves differently in the
+    two-program build.  Second clause: the compiler compares IR enum values with `==`/`in`, never with `is`."""
+    res = RuleResult("R-ENUMCONV")
+    m = repo.mod("compiler/util/ir_data_utils.py")
+    conv = [f for f in m.funcs.values() if f.name == "_enum_type_converter"]
+    if not conv:
+        raise AnalysisError("ir_data_utils: _enum_type_converter not found")
+    f = conv[0]
+    params = [a.arg for a in f.node.args.args]
+    cls_p = next((p for p in params if "cls" in p), None)
+    if cls_p is None:
+        raise AnalysisError("_enum_type_converter: enum class parameter not recognised")
+    rets = [n for n in walk_no_nested_funcs(f.node) if isinstance(n, ast.Return)]
+    if not rets:
+        raise AnalysisError("_enum_type_converter has no return")
+    for r in rets:
+        res.instances += 1
+        v = r.value
+        ok = (isinstance(v, ast.Call) and ((isinstance(v.func, ast.Name) and v.func.id == cls_p) or
+                                           (call_name(v) == "getattr" and v.args and isinstance(v.args[0], ast.Name) and v.args[0].id == cls_p))) \
+            or (isinstance(v, ast.Subscript) and isinstance(v.value, ast.Name) and v.value.id == cls_p)
+        if not ok:
+            res.add(f"{m.rel}|{f.qualname}|raw-return", f"{f.qualname} returns `{ast.unparse(v) if v is not None else 'None'}` instead of a member of "
+                    f"`{cls_p}`: enum fields of an IR read from JSON hold plain ints, so the back end of the two-program build sees other "
+                    "objects than embossc (identity tests, member-keyed tables, `.name`)", m.rel, r.lineno, f.qualname)
+    # identity comparisons with enum members
+    enums = ("FunctionMapping", "AddressableUnit")
+    for mod in repo.compile_path_modules():
+        for fn in mod.funcs.values():
+            for n in walk_no_nested_funcs(fn.node):
+                if isinstance(n, ast.Compare) and any(isinstance(o, (ast.Is, ast.IsNot)) for o in n.ops):
+                    for side in [n.left] + n.comparators:
+                        s_ = ast.unparse(side)
+                        if any(f"ir_data.{e}." in s_ or s_.startswith(e + ".") for e in enums):
+                            res.instances += 1
+                            res.add(f"{mod.rel}|{fn.qualname}|identity|{s_}", f"{fn.qualname} compares an IR enum value by identity (`{ast.unparse(n)[:70]}`): "
+                                    "after a JSON round trip the value need not be the same object as the member, so the branch is taken "
+                                    "by embossc and skipped by emboss_codegen_cpp", mod.rel, n.lineno, fn.qualname)
+    res.analysed = [m.rel]
+    return res
